@@ -228,9 +228,13 @@ def run(ctx) -> None:
     inserts = [c for c in walk_no_nested(st.node) if isinstance(c, ast.Call) and isinstance(c.func, ast.Attribute)
                and c.func.attr == "insert"]
     ctx.require(len(stacks) == 2 and len(inserts) == 1, "_stack: stack/insert calls not found")
-    axes_used = {norm_text(kwarg(c, "axis", 1)) for c in stacks} | {norm_text(inserts[0].args[0])}
+    def axis_text(c):
+        a = kwarg(c, "axis", 1)
+        return "0 (the default of stack: no axis is passed)" if a is None else norm_text(a)
+
+    axes_used = {axis_text(c) for c in stacks} | {norm_text(inserts[0].args[0])}
     ctx.check(len(axes_used) == 1, "R-LOCKSTEP", st.qualname, st.where, f"array and metadata use axis `{axes_used}`",
-              f"array stacked along {sorted(norm_text(kwarg(c, 'axis', 1)) for c in stacks)} but metadata inserted at "
+              f"array stacked along {sorted(axis_text(c) for c in stacks)} but metadata inserted at "
               f"{norm_text(inserts[0].args[0])}", key_detail="")
     ok = norm_text(inserts[0].args[1]) == st.positional_params[2]
     ctx.check(ok, "R-LOCKSTEP", f"{st.qualname}:inserted-metadata", st.loc(inserts[0]),
@@ -1126,3 +1130,189 @@ def run(ctx) -> None:  # noqa: F811
     from . import c35 as _c35
     _c35.run(_OnlyOrdinalConcat(ctx))
     _inner_run_c29_sweep(ctx)
+
+
+# ---- added after two genuine defects reported by a seeding agent (repaired in 4b730291 and 2f9e93ff)
+_inner_run_c29_r5 = run
+
+
+def _py_eval(e: ast.AST, env: dict):
+    """Python semantics of a small expression language over integers / None (constants, names from env, + - *,
+    and / or, conditional expressions, comparisons).  Raises AnalysisError outside it."""
+    if isinstance(e, ast.Constant):
+        return e.value
+    if isinstance(e, ast.Name) and e.id in env:
+        return env[e.id]
+    if isinstance(e, ast.UnaryOp) and isinstance(e.op, ast.USub):
+        return -_py_eval(e.operand, env)
+    if isinstance(e, ast.UnaryOp) and isinstance(e.op, ast.Not):
+        return not _py_eval(e.operand, env)
+    if isinstance(e, ast.BinOp) and isinstance(e.op, (ast.Add, ast.Sub, ast.Mult)):
+        a, b = _py_eval(e.left, env), _py_eval(e.right, env)
+        if a is None or b is None:
+            raise AnalysisError(f"arithmetic on None in `{norm_text(e)}`")
+        return a + b if isinstance(e.op, ast.Add) else a - b if isinstance(e.op, ast.Sub) else a * b
+    if isinstance(e, ast.BoolOp):
+        val = None
+        for v in e.values:
+            val = _py_eval(v, env)
+            if isinstance(e.op, ast.Or) and val:
+                return val
+            if isinstance(e.op, ast.And) and not val:
+                return val
+        return val
+    if isinstance(e, ast.IfExp):
+        return _py_eval(e.body if _py_eval(e.test, env) else e.orelse, env)
+    if isinstance(e, ast.Compare) and len(e.ops) == 1:
+        a, b = _py_eval(e.left, env), _py_eval(e.comparators[0], env)
+        op = e.ops[0]
+        table = {ast.Eq: lambda: a == b, ast.NotEq: lambda: a != b, ast.Lt: lambda: a < b, ast.LtE: lambda: a <= b,
+                 ast.Gt: lambda: a > b, ast.GtE: lambda: a >= b, ast.Is: lambda: a is b, ast.IsNot: lambda: a is not b}
+        if type(op) in table:
+            return table[type(op)]()
+    raise AnalysisError(f"cannot evaluate `{norm_text(e)[:60]}`")
+
+
+def _keepdims_slices(ctx) -> int:
+    """R-KEEPDIMS"""
+    f = ctx.repo.function("abtem.array", "_validate_array_items")
+    n = 0
+    for comp in walk_no_nested(f.node):
+        if not isinstance(comp, (ast.GeneratorExp, ast.ListComp)):
+            continue
+        tgt = comp.generators[0].target
+        if not isinstance(tgt, ast.Name):
+            continue
+        for c in ast.walk(comp.elt):
+            if not (isinstance(c, ast.Call) and call_name(c) == "slice" and 2 <= len(c.args) <= 3):
+                continue
+            bad = []
+            LEN = 5  # any length > 2 shows the pattern: index i of a length-5 axis
+            for i in (0, 1, LEN - 1, -1, -2, -LEN):
+                lo, hi = (_py_eval(a, {tgt.id: i}) for a in c.args[:2])
+                step = _py_eval(c.args[2], {tgt.id: i}) if len(c.args) == 3 else None
+                want = [i % LEN]
+                got = list(range(LEN))[slice(lo, hi, step)]
+                if got != want:
+                    bad.append(f"index {i} of a length-{LEN} axis becomes slice({lo}, {hi}), which selects items {got}")
+            n += 1
+            ctx.check(not bad, "R-KEEPDIMS", f"{f.qualname}:integer index kept as a slice", f.loc(c),
+                      f"`{norm_text(c)}` selects exactly item i for i = 0, 1, n-1, -1, -2, -n",
+                      f"`{norm_text(c)}`: " + "; ".join(bad) + " — NumPy's a[i] (kept as an axis of length one) is item "
+                      "i itself", key_detail="slice")
+    return n
+
+
+def _linear_axis_items(ctx) -> int:
+    """R-LINEARITEM"""
+    repo = ctx.repo
+    getter = repo.method("abtem.array", "ArrayObject", "_get_ensemble_axes_metadata_items")
+    # does the caller fall back to the unchanged axis when the axis cannot be indexed?
+    fallback = any(isinstance(h, ast.ExceptHandler) and dotted(h.type) == "TypeError" for h in ast.walk(getter.node))
+    cls = repo.cls("abtem.core.axes", "LinearAxis")
+    gi = cls.find_method("__getitem__")
+    n = 1
+    if gi is None:
+        ctx.check(not fallback, "R-LINEARITEM", "abtem.core.axes.LinearAxis:__getitem__", cls.where if hasattr(cls, "where") else getter.where,
+                  "", "LinearAxis (line and grid scan axes) has no __getitem__ and "
+                  f"{getter.qualname} falls back to an unchanged copy of the axis when indexing raises TypeError: the "
+                  "items selected by a slice that does not start at 0 keep the coordinates of the first items "
+                  "(coordinates are offset + i x sampling)", key_detail="missing")
+        return n
+    df = DataFlow(gi.node)
+    item = gi.positional_params[1]
+    stores = {}
+    for st in ast.walk(gi.node):
+        if isinstance(st, ast.Assign) and len(st.targets) == 1 and isinstance(st.targets[0], ast.Attribute) and \
+                st.targets[0].attr in ("offset", "sampling") and not dotted(st.targets[0]).startswith("self."):
+            stores[st.targets[0].attr] = st
+    kws = {}
+    for c in walk_no_nested(gi.node):
+        if isinstance(c, ast.Call) and (dotted(c.func) or "").endswith("__class__") or (
+                isinstance(c, ast.Call) and isinstance(c.func, ast.Name) and c.func.id in ("type", cls.name)):
+            for k in c.keywords:
+                if k.arg in ("offset", "sampling"):
+                    kws[k.arg] = (k.value, c)
+    if not stores and not kws:
+        raise AnalysisError(f"{gi.qualname}: no new offset / sampling recognised")
+
+    def term(attr):
+        if attr in stores:
+            st = stores[attr]
+            return st.value, df.cfg.node_of(st).idx, st
+        v, c = kws[attr]
+        for st in ast.walk(gi.node):
+            if isinstance(st, ast.stmt) and not isinstance(st, (ast.FunctionDef, ast.If, ast.For, ast.While, ast.With, ast.Try)) \
+                    and any(x is c for x in walk_no_nested(st)):
+                return v, df.cfg.node_of(st).idx, st
+        raise AnalysisError(f"{gi.qualname}: statement of the constructor call not found")
+
+    def norm(e, at):
+        nz = FlowNormalizer(df, at)
+        # the slice's start / step with None read as 0 / 1: keep the defaulting expressions as atoms
+        for nm in {d.var for d in df.defs if d.kind == "assign" and d.value is not None and any(
+                isinstance(x, ast.Attribute) and x.attr in ("start", "step") and dotted(x.value) == item
+                for x in ast.walk(d.value))}:
+            nz.no_inline.add(nm)
+        return nz.norm(e)
+
+    def role_atoms(p: Poly, attr: str) -> set:
+        """atoms of a term that stand for the slice's `attr` (a local defaulted from item.<attr>, or item.<attr>)"""
+        out = set()
+        for mono in p.terms:
+            for a, _ in mono:
+                if a == f"{item}.{attr}":
+                    out.add(a)
+                else:
+                    for d in df.defs:
+                        if d.var == a and d.kind == "assign" and d.value is not None and any(
+                                isinstance(x, ast.Attribute) and x.attr == attr and dotted(x.value) == item
+                                for x in ast.walk(d.value)):
+                            out.add(a)
+        return out
+
+    for attr, role in (("offset", "start"), ("sampling", "step")):
+        n += 1
+        if attr not in stores and attr not in kws:
+            ctx.violation("R-LINEARITEM", f"{gi.qualname}:{attr}", gi.where,
+                          f"the sliced axis keeps the receiver's {attr}: item k of the selection is not labelled with "
+                          f"the coordinate of item start + k x step", key_detail=attr)
+            continue
+        e, at, st = term(attr)
+        p = norm(e, at)
+        atoms = role_atoms(p, role)
+        ok = False
+        if len(atoms) == 1:
+            s_ = Poly.atom(next(iter(atoms)))
+            want = (Poly.atom("self.offset") + s_ * Poly.atom("self.sampling")) if attr == "offset" else \
+                s_ * Poly.atom("self.sampling")
+            ok = p == want
+        ctx.check(ok, "R-LINEARITEM", f"{gi.qualname}:{attr}", gi.loc(st),
+                  f"new {attr} = " + ("self.offset + start x self.sampling" if attr == "offset" else "self.sampling x step"),
+                  f"the sliced axis gets {attr} `{p.key()[:80]}`, expected " +
+                  ("self.offset + start x self.sampling" if attr == "offset" else "self.sampling x step") +
+                  f" with the slice's own {role}: coordinates of the selected items are offset + (start + k x step) x "
+                  "sampling", key_detail=attr)
+    return n
+
+
+def run(ctx) -> None:  # noqa: F811
+    ctx.rule("R-KEEPDIMS", "_validate_array_items: the slice an integer index is replaced with under keepdims selects "
+             "exactly that item for every index NumPy accepts — the slice bounds are evaluated with Python semantics "
+             "(`or`, conditional expressions) for i in {0, 1, n-1, -1, -2, -n} of an axis of length n and applied to "
+             "range(n); `slice(i, i + 1)` is empty for i = -1")
+    ctx.rule("R-LINEARITEM", "indexing an array object along a linear axis carries the coordinates of the selected "
+             "items: LinearAxis resolves __getitem__ (otherwise the metadata getter silently keeps the unchanged axis), "
+             "and for a slice the new offset is self.offset + start x self.sampling and the new sampling "
+             "self.sampling x step (term normal forms, start / step being the slice's own fields with None read as "
+             "0 / 1)")
+    pending = None
+    for part in (_keepdims_slices, _linear_axis_items):
+        try:
+            got = part(ctx)
+            ctx.require(got >= 1, f"{part.__name__}: nothing examined")
+        except AnalysisError as e:
+            pending = pending or e
+    _inner_run_c29_r5(ctx)
+    if pending is not None:
+        raise pending
